@@ -53,7 +53,7 @@ RULE = ("cases = (input shape 0-3 d with lengths 0-6, dtype, data seed, chunking
         "distinct = distinct case description.")
 ASSUMPTIONS = ["NumPy 2.x is the reference for stage values", "sync scheduler (threads for a tenth)",
                "np.block / placement by offsets done by the harness"]
-BUDGET = {"quick": 45, "thorough": 700}
+BUDGET = {"quick": 90, "thorough": 900}
 # measured on the unchanged tree (quick, seeds 0,1,2,7): 3768 evaluations, ~3000 distinct non-trivial, ~15400 stages, ~145000 blocks,
 # ~30000 reassemblies, 620-760 stages with unknown chunk sizes; ~1.3 % skipped
 FLOORS = {"quick": {"evaluations": 1700, "distinct_nontrivial": 1350,
